@@ -50,6 +50,7 @@ Not generated because the unit is rejected by the compiler on the unchanged tree
   outer-scalar outer(Tensor<T>,Tensor<T>) (two rank-0 tensors) is ambiguous for clang++ (g++ accepts it)
   einsum-diag-rej, explicit-diag-rej   an internal repeat for which is_generalised_matrix_matrix indexes one of the index lists
                out of bounds in a constant expression (e.g. einsum<Index<2>,Index<3,2,3>>): hard compile error
+  CONTRACT_OPT=1,2 + FASTOR_DONT_VECTORISE   'unknown type name V' (strided_contraction.h:70, :160) for rank-4 operands
   CONTRACT_OPT=-2   contraction.h:371 uses Index<>::NoIndices, which does not exist
   CONTRACT_OPT=-1,-3   internal variants: 'unknown type name V' under FASTOR_DONT_VECTORISE (contraction.h:461, :327); -3 additionally
                rejects reductions by static_assert and evaluates get_indices(..., -1) in a constant expression for some patterns
@@ -391,6 +392,9 @@ def cases(tier, seed):
         for (L0, L1) in sel:
             free, _ = analyse(L0, L1)
             ty, isa = next_combo()
+            # CONTRACT_OPT=1/2 with FASTOR_DONT_VECTORISE is rejected by the compiler for rank-4 operands on the unchanged tree
+            # ('unknown type name V', strided_contraction.h:70/:160): the scalar configuration is not combined with the macro
+            if isa == 'scalar' and not INCLUDE_REJECTED: isa = 'sse2'
             add_pair(L0, L1, 'contraction', ty, isa, std_for(), macros=('CONTRACT_OPT=%d' % opt,))
     # --- operands as expressions / maps ------------------------------------------------------------------------------
     for (L0, L1) in sample(rng, between, 30 if thorough else 8):
